@@ -240,10 +240,28 @@ class TenantWorld(object):
             if rng.random() > prof.get('p_stay', 0.55):
                 cur = P.pick(rng, order)
             events.append(self.gen_call(rng, cur, tenants, order, rates, attempts))
+            if rng.random() < rates.get('F5', 0) * 0.7 and not events[-1].get('headroom'):
+                # edX delivers the very same submission twice
+                dup = copy.deepcopy(events[-1])
+                dup['dup'] = True
+                dup['faults'] = [f for f in dup['faults'] if f['kind'] not in ('F6',)] + \
+                    [{'kind': 'F5', 'what': 'duplicate-delivery'}]
+                events[-1]['faults'] = [f for f in events[-1]['faults'] if f['kind'] != 'F6']
+                events.append(dup)
         return {'world': 'tenants', 'profile': prof['name'], 'tenants': tenants, 'shared': shared,
                 'events': events, 'fault_free': fault_free}
 
     def gen_credit(self, rng, gid):
+        if self.profile.get('credit_grid') and rng.random() < 0.8:
+            r = rng.random()
+            if r < 0.5:
+                return {'__credit__': {'cls': 'LinearCredit', 'cfg': {
+                    'decrease_credit_after': rng.randint(1, 6), 'decrease_credit_steps': rng.randint(1, 6),
+                    'minimum_credit': rng.choice([0, 0.1, 0.2, 0.5, 1])}}}
+            if r < 0.85:
+                return {'__credit__': {'cls': 'GeometricCredit', 'cfg': {
+                    'factor': rng.choice([0, 0.1, 0.5, 0.75, 0.9, 1])}}}
+            return {'__credit__': {'cls': 'ReciprocalCredit', 'cfg': {}}}
         if rng.random() < 0.2:
             table = P.pick(rng, [[1, 0.5, 0.25], [1, 1, 0], [1.0, 0.75, 0.5, 0.25, 0], [1, 0.33333]])
             return {'__credit__': {'name': gid + '.credit', 'table': table}}
@@ -412,6 +430,7 @@ class Run(object):
         self.scope = None
         self.cur_layer = None
         self.dgn = {}
+        self.last_call = {}
 
     def bump(self, d, key, n=1):
         d[key] = d.get(key, 0) + n
@@ -698,6 +717,14 @@ class Run(object):
             self.judge_family(i, ev, tp, g, o, x, inp)
         if 'attempt' in self.judges:
             self.judge_attempt(i, ev, tp, g, o, gid, expect, inp, prime)
+        if ev.get('dup') and 'dup' in self.judges:
+            prev = self.last_call.get(gid)
+            if prev is not None and prev[0] == core.jdigest([ev.get('expect'), ev['input'], ev.get('attempt'),
+                                                             ev['subseed']]):
+                self.bump(self.probes, 'duplicate delivery compared')
+                if prev[1] != o:
+                    self.violate('dup', i, cls, 'the same delivery twice: first %s then %s' % (short(prev[1]), short(o)))
+        self.last_call[gid] = (core.jdigest([ev.get('expect'), ev['input'], ev.get('attempt'), ev['subseed']]), o)
         okc = o['cls'] if o['k'] == 'exc' else 'ret'
         self.sig.append(['call', cls, ev.get('ecls'), ev.get('icls'), fk, okc])
         self.log.append([i, 'call', core.jdigest(o), x.get('draws')])
@@ -1108,7 +1135,44 @@ class Run(object):
                     'attempt': e.get('attempt'), 'faults': [f['kind'] for f in e.get('faults', ())]}
         return {k: v for k, v in e.items() if k in ('op', 'g', 'cls', 'values', 'formula')}
 
+    def judge_schedules(self):
+        """C17(a): built-in schedules, for attempt numbers >= 1: 1 at the first attempt, within
+        [0, 1], never below LinearCredit's minimum, never increasing."""
+        seen = set()
+        for gid, g in self.graders.items():
+            if g is None or gid not in self.tenants:
+                continue
+            sched = g.config.get('attempt_based_credit')
+            if sched is None or type(sched).__name__ not in ('LinearCredit', 'GeometricCredit', 'ReciprocalCredit'):
+                continue
+            key = (type(sched).__name__, core.digest(sched.config))
+            if key in seen:
+                continue
+            seen.add(key)
+            vals = [float(sched(n)) for n in range(1, 201)]
+            self.bump(self.refs, 'schedule-sweep')
+            desc = '%s(%r)' % (type(sched).__name__, sched.config)
+            if vals[0] != 1:
+                self.violate('schedule', len(self.j['events']), type(sched).__name__, '%s gives %r at attempt 1' % (desc, vals[0]))
+            if any(not (0 <= v <= 1) for v in vals):
+                self.violate('schedule', len(self.j['events']), type(sched).__name__, '%s leaves [0, 1]: %r' % (desc, [v for v in vals if not 0 <= v <= 1][:3]))
+            if any(b > a + 1e-12 for a, b in zip(vals, vals[1:])):
+                k = [k for k, (a, b) in enumerate(zip(vals, vals[1:])) if b > a + 1e-12][0]
+                self.violate('schedule', len(self.j['events']), type(sched).__name__,
+                             '%s increases from attempt %d (%r) to %d (%r)' % (desc, k + 1, vals[k], k + 2, vals[k + 1]))
+            if type(sched).__name__ == 'LinearCredit':
+                mn = sched.config['minimum_credit']
+                if any(v < mn - 1e-12 for v in vals):
+                    self.violate('schedule', len(self.j['events']), 'LinearCredit', '%s goes below its minimum' % desc)
+                after, steps = sched.config['decrease_credit_after'], sched.config['decrease_credit_steps']
+                if any(v != 1 for v in vals[:after]) or abs(vals[after + steps - 1] - mn) > 1e-4:
+                    self.violate('schedule', len(self.j['events']), 'LinearCredit',
+                                 '%s: full credit must last %d attempts and reach the minimum %d attempts later: %r'
+                                 % (desc, after, steps, vals[:after + steps + 1]))
+
     def finish(self):
+        if 'attempt' in self.judges:
+            self.judge_schedules()
         # author-global operations are part of the model: undo them through the public API,
         # then the process must be as good as new
         for cname in REG_CLASSES:
